@@ -83,6 +83,34 @@ impl oxidd_core::WorkerPool for Workers {
         &self,
         op: impl Fn(oxidd_core::BroadcastContext) -> RA + Sync,
     ) -> Vec<RA> {
+        #[cfg(oxidd_verif)]
+        if oxidd_core::verif::controlled() {
+            // Run one instance of `op` per worker on threads controlled by the
+            // exploration harness (nested fork/join) instead of the pool
+            // workers. The set of behaviours is the same.
+            fn rec<RA: Send>(
+                op: &(impl Fn(oxidd_core::BroadcastContext) -> RA + Sync),
+                index: u32,
+                num_threads: u32,
+                out: &mut [Option<RA>],
+            ) {
+                let (first, rest) = out.split_first_mut().unwrap();
+                let ctx = oxidd_core::BroadcastContext { index, num_threads };
+                if rest.is_empty() {
+                    *first = Some(op(ctx));
+                } else {
+                    let mut ctx = Some(ctx);
+                    oxidd_core::verif::join(
+                        &mut || *first = Some(op(ctx.take().unwrap())),
+                        &mut || rec(op, index + 1, num_threads, rest),
+                    );
+                }
+            }
+            let n = self.pool.current_num_threads();
+            let mut out: Vec<Option<RA>> = (0..n).map(|_| None).collect();
+            rec(&op, 0, n as u32, &mut out);
+            return out.into_iter().map(Option::unwrap).collect();
+        }
         self.pool.broadcast(|ctx| {
             op(oxidd_core::BroadcastContext {
                 index: ctx.index() as u32,
